@@ -1202,5 +1202,68 @@ CORPUS = {
 }
 
 
+def m_replace(suffix, old, new, count=1):
+    """Exact source-text replacement (tied to the present spelling: skipped, and recorded as skipped, when it is gone)."""
+    def fn(sources):
+        path = next((p for p in sources if p.endswith(suffix)), None)
+        if path is None or old not in sources[path]:
+            raise NotApplicable(f'text anchor not found in {suffix}')
+        sources[path] = sources[path].replace(old, new, count)
+        ast.parse(sources[path])
+        return sources
+    return fn
+
+
+EXTRA = {
+    'C01': [
+        ('scientific-notation guard accepts no digit at all', m_replace('tokenizer.py', "regexSN = r'^[1-9]{1}(\\.[0-9]+)?[eE]{1}$'", "regexSN = r'^[2-9]{1}(\\.[0-9]+)?[eE]{1}$'")),
+    ],
+    'C02': [
+        ('XLFormula no longer tokenises its text', m_replace('xltypes.py', 'self.tokens = tokenizer.ExcelParser().getTokens(self.formula).items', 'self.tokens = []')),
+        ('leading blanks are not removed by the tokenizer', m_replace('tokenizer.py', 'if (formula[0] in (" ", "\\n")):', 'if (formula[0] in ("\\n",)):')),
+    ],
+    'C03': [
+        ('zero-valued cells skipped while a range is materialised',
+         m_replace('ast_nodes.py', "                    cell = context.eval_cell(col_addr)\n", "                    cell = context.eval_cell(col_addr)\n                    if cell.value == 0:\n                        continue\n")),
+        ('build_code maps names to the definition objects', m_replace('model.py', 'name: defn.address', 'name: defn')),
+        ('a missing cell evaluates to 0', m_replace('evaluator.py', "            return func_xltypes.BLANK\n        cell = self.model.cells[addr]", "            return func_xltypes.Number(0)\n        cell = self.model.cells[addr]")),
+        ('resolve_address keeps the quotes of the sheet name', m_replace('utils.py', "    sheet = resolve_sheet(sheet_str)\n    coord_match", "    sheet = sheet_str\n    coord_match")),
+    ],
+    'C05': [
+        ('evaluation rewrites the formula text', m_replace('evaluator.py', "        cell.value = value\n        cell.need_update = False", "        cell.value = value\n        cell.formula.formula = str(value)\n        cell.need_update = False")),
+        ('ABS consults id()', m_replace('math.py', "    return abs(number)\n", "    return abs(number) if id(number) % 2 == 0 else abs(number)\n")),
+    ],
+    'C07': [
+        ('flatten swallows Excel errors', m_replace('xl.py', "        else:\n            flat.append(value)\n    return flat", "        else:\n            try:\n                flat.append(func_xltypes.Number.cast(value))\n            except xlerrors.ExcelError:\n                pass\n    return flat")),
+    ],
+    'C08': [
+        ('Boolean has no number conversion', m_replace('func_xltypes.py', "    def __number__(self):\n        return int(self.value)\n", "    def __number__(self):\n        raise NotImplementedError\n")),
+    ],
+    'C11': [
+        ('ranges built before the defined names are linked', m_replace('model.py', "        self.build_defined_names()\n        self.link_cells_to_defined_names()\n        self.build_ranges()", "        self.build_ranges()\n        self.link_cells_to_defined_names()\n        self.build_defined_names()")),
+    ],
+    'C12': [
+        ('restoring never recompiles', m_replace('model.py', "        if build_code:\n            self.build_code()\n\n    def build_code", "        if build_code:\n            pass\n\n    def build_code")),
+    ],
+    'C13': [
+        ('extracted model is not compiled', m_replace('model.py', "        extracted_model.build_code()\n\n        return extracted_model", "        return extracted_model")),
+    ],
+    'C14': [
+        ('AVERAGE without the empty guard', m_replace('statistics.py', "    if len(numbers) < 1:\n        return 0\n\n    return sum(numbers) / len(numbers)", "    return sum(numbers) / len(numbers)")),
+    ],
+    'C15': [
+        ('COUNTIF skips falsy cells', m_replace('statistics.py', "return sum([check(val) for val in countRange])", "return sum([check(val) for val in countRange if val])")),
+    ],
+    'C16': [
+        ('_round sets the process-wide decimal context', m_replace('math.py', "    with decimal.localcontext() as dc:\n        dc.rounding = _rounding\n        ans = round(number, int(num_digits))", "    dc = decimal.getcontext()\n    dc.rounding = _rounding\n    ans = round(number, int(num_digits))")),
+    ],
+    'C20': [
+        ('XNPV without the length guard', m_replace('financial.py', "    if len(values) != len(dates):\n        raise xlerrors.NumExcelError(\n            f'`values` range must be the same length as `dates` range '\n            f'in XNPV, {len(values)} != {len(dates)}')\n\n    return _xnpv(rate, values, dates)", "    return _xnpv(rate, values, dates)")),
+    ],
+}
+for _k, _v in EXTRA.items():
+    CORPUS.setdefault(_k, []).extend(_v)
+
+
 def for_property(prop):
     return CORPUS.get(prop, [])
